@@ -855,8 +855,8 @@ static std::vector<CfgC> configsC(bool thorough, int ntables) {
     std::vector<CfgC> v;
     std::vector<int> models = thorough ? std::vector<int>{0, 1, 2, 3, 4} : std::vector<int>{0, 1, 2, 3};
     for (int t = 0; t < ntables; ++t) for (int model : models) for (int both = 0; both < 2; ++both) for (int imb = 0; imb < 4; ++imb) v.push_back({t, model, both != 0, imb, 8});
-    // thorough: the 17-level lattice for the relperm-only hysteresis configurations
-    if (thorough) for (int t = 0; t < ntables; ++t) for (int model : models) for (int imb = 0; imb < 4; ++imb) v.push_back({t, model, false, imb, 16});
+    // thorough: the same configurations again on the 17-level lattice
+    if (thorough) for (int t = 0; t < ntables; ++t) for (int model : models) for (int both = 0; both < 2; ++both) for (int imb = 0; imb < 4; ++imb) v.push_back({t, model, both != 0, imb, 16});
     return v;
 }
 
@@ -870,7 +870,8 @@ static void partC(bool thorough) {
         if (R->timed_out()) return;
         if (!R->mine()) continue;
         const CfgC& c = cfgs[i];
-        const std::string dk = std::to_string(c.table) + "/" + std::to_string(c.model) + "/" + (c.both ? "B" : "K");
+        // one deck per (table, model, flag, lattice): its four imbibition columns are used by one configuration each, so every BFS starts on untouched cells
+        const std::string dk = std::to_string(c.table) + "/" + std::to_string(c.model) + "/" + (c.both ? "B" : "K") + "/" + std::to_string(c.levels);
         R->current("c " + std::to_string(c.table) + " " + std::to_string(c.model) + " " + (c.both ? "BOTH" : "KR") + " " + std::to_string(c.imb) + " " + std::to_string(c.levels) + " -");
         try {
             if (!decks.count(dk)) decks.emplace(dk, buildC(tabs[c.table], c.model, c.both));
@@ -893,11 +894,11 @@ int main(int argc, char** argv) {
     const bool T = run.thorough();
     run.rule = std::string("(a) every combination of the SWOF/SGOF node-layout alphabet {connate water, critical != connate, residual oil, 1-2 interior nodes, end-point kr < 1, 3 pc shapes") + (T ? ", Swu/Sgu below maximum" : "") + "}, 3-5 nodes, two regions per deck (plus single-region and FIELD-unit decks), family I and the family II deck on the same nodes: node reproduction, bracketing by neighbouring nodes + monotone + range on the 101-point lattice, family I == family II (1e-12) on the 1-D lattices and the 21-level (Sw,Sg) triangle; "
                "(b) ENDSCALE: all subsets of size <= " + (T ? "3" : "2") + " of 17 end-point arrays x 2 shifted values each in one cell, two- and three-point (SCALECRS) scaling, " + (T ? "6" : "3") + " base tables: scaled end-points -> table end-points (saturation maps, kr = 0 at scaled critical, kr = scaled max at scaled maximum, KR*R at the displacing critical saturation with three-point scaling, PCW/PCG), explicit and defaulted own end-points are the identity (1e-12) on the same lattices; "
-               "(c) BFS over updateHysteresis histories, 45 events = 9-level (Sw,Sg) triangle, depth " + (T ? "6" : "5") + ", EHYSTR models " + (T ? "0-4" : "0-3") + " x {KR,BOTH} x " + (T ? "3" : "2") + " drainage tables x 4 IMBNUM choices (same region, copied region, 2 genuine imbibition tables), state key = hysteresis getters of both two-phase laws; per state: turning points = running extremes of the history, krn == drainage curve (bitwise, manager without hysteresis) on the drainage side of the turning point, continuity at the reversal point (1e-10), krn monotone on the 65-point lattice, Carlson + identical curves => all kr unchanged (1e-12)";
+               "(c) BFS over updateHysteresis(fluidState, cell) histories to depth " + (T ? "6" : "5") + " (closed earlier: frontier 0), events = all points of the 9-level (Sw,Sg) triangle with Sw >= connate water (36-45 events)" + (T ? ", and again the 17-level triangle (120-153 events)" : "") + ", EHYSTR models " + (T ? "0-4" : "0-3") + " x {KR,BOTH} x " + (T ? "3" : "2") + " drainage tables x 4 IMBNUM choices (same region, copied region, 2 genuine imbibition tables), state key = all hysteresis getters of both two-phase laws; per transition: turning points (krnSwMdc, krwSwMdc, pcSwMdc) = running extremes of the history, krn at the current saturation == drainage curve while the saturation never reversed; per distinct state: krn == drainage curve (bitwise, manager without hysteresis) on the drainage side of the turning point, continuity at the reversal point (1e-10, one ulp past it), krn monotone on the 65-point lattice, Carlson + identical curves => all kr unchanged (1e-12)";
     run.assumptions = {"reference model of (a): piecewise-linear interpolation of the generated nodes; family II tables are generated on the family I nodes (SOF3 on the union of both node sets, interpolated values)",
                        "table end-points of (b) are read off the nodes by the harness (last kr = 0 node etc.); anchors of the two/three-point maps are those of the ECLIPSE manual (SWCR, 1-SOWCR-SGL, SWU; SWL+SGL, SWCR+SGL, 1-SOWCR; SGCR, 1-SOGCR-SWL, SGU; SOGCR, 1-SGCR-SWL, 1-SWL-SGL; pc: SWL,SWU / SGL,SGU); shifted values are chosen so that every combination stays ordered",
                        "three-phase oil relperm: the default (Baker-type) model; krow is observed at Sg = 0, krog at Sw = Swco, or through the two-phase law of the cell's parameter object",
-                       "(c) states are restored by assigning a saved copy of the two hysteresis parameter objects of a cell; every new state is re-derived by replaying its history on a fresh cell (or from the pristine snapshot once the 191 fresh cells of a configuration are used up); imbibition tables share connate saturation and the maximum non-wetting relperm with the drainage table",
+                       "(c) states are restored by assigning a saved copy of the two hysteresis parameter objects of a cell; every new state is re-derived by replaying its history on a fresh cell (or from the pristine snapshot once the 191 fresh cells of a configuration are used up); invariants of a state are evaluated at its first visit and at every 32nd transition (same key must give the same behaviour hash); events below connate water are outside the tables' domain and excluded; imbibition tables share connate saturation and the maximum non-wetting relperm with the drainage table",
                        "pc hysteresis (always Killough in opm) is exempt from the Carlson no-change claim"};
 
     if (!run.replay_path.empty()) {
